@@ -8,6 +8,7 @@ import struct
 from mc.engine import bfs
 from mc.report import Report, digest
 from mc.refs import c11_frames as FR
+from mc.refs import c11_lattice as LAT
 
 PID = "C11"
 
@@ -57,12 +58,14 @@ NEAR_LINK_LOCAL = ("0180c2000100", "0180c2010000", "0180c3000000", "0181c2000000
 
 def famkey (fam):
   if fam is None or fam == "udp" or fam == "lldp" or fam.startswith("udp-"): return ""
+  if fam.startswith("lat:"): return "" if fam[4:] == LAT.BASE else ":" + LAT.field(fam[4:])
   return ":" + FAMKEY.get(fam, fam)
 
 def family_frame (fam, src, dst, tag=0):
   if fam == "lldp": return lldp_frame(src, dst)
   if fam == "udp": return udp_frame(src, dst)
   if fam.startswith("udp-"): return udp_frame(src, dst, tag, int(fam[4:]) - 42)
+  if fam.startswith("lat:"): return LAT.build(fam[4:], src, dst)
   return FR.FAMILIES[fam](src, dst, tag)
 
 
@@ -172,6 +175,9 @@ class World (object):
     self.tag = 0
     self.fam = None                           # family plans: the family this history is confined to
     self.families = tuple(families) if families is not None else FAMILIES_Q
+    self.macs = {}                            # station address overrides (lattice values dl-addr:*): host -> address
+
+  def hmac (self, n): return self.macs.get(n) or mac(n)
 
   def fail (self, clause, what): self.bad.append(("%s:%s" % (PID, clause), what))
 
@@ -180,7 +186,7 @@ class World (object):
     return stimuli(self.cfg)
 
   def dst_mac (self, d):
-    if d.startswith("h"): return mac(int(d[1:]))
+    if d.startswith("h"): return self.hmac(int(d[1:]))
     if d.startswith("g:"): return bytes.fromhex(d[2:])
     return dict(unknown=UNKNOWN, bcast=BCAST, mcast=MCAST, stp=STP, lldp=LLDP_DST)[d]
 
@@ -194,6 +200,17 @@ class World (object):
       except ControlLoop as e:
         self.fail("packet-in-loop", "expiry sweep: %s" % e); return ("packet-in-loop",)
       self.check_buffers()
+      # the expiry sweep has just run: a cached flow lives no longer than the timeouts the controller gave it (what
+      # "an older cached flow is still installed" may excuse is bounded by them)
+      now = self.clock.now
+      for i, st in enumerate(net.sw):
+        for e in st.sw.table.entries:
+          idle = bool(e.idle_timeout) and now - e.last_touched > e.idle_timeout
+          hard = bool(e.hard_timeout) and now - e.created > e.hard_timeout
+          if idle or hard:
+            self.fail("expired-flow-still-installed", "switch %d: after the expiry sweep a flow (output %r) is still installed %.0f s after its last hit / %.0f s after "
+                      "it was installed (idle timeout %d, hard timeout %d)" % (i + 1, [getattr(a, "port", None) for a in e.actions], now - e.last_touched,
+                                                                               now - e.created, e.idle_timeout, e.hard_timeout))
       return ("tick", sum(len(st.sw.table) for st in net.sw))
     if op[0] == "move":
       if not self.moved:
@@ -205,7 +222,8 @@ class World (object):
     s, d = op[1], op[2]
     fam = op[3] if len(op) > 3 else None
     if s == 4: self.where[4] = self.where[1]
-    src = mac(s)
+    if fam is not None and fam.startswith("lat:dl-addr:"): self.macs[1] = LAT.mac_of(fam[4:])
+    src = self.hmac(s)
     dm = self.dst_mac(d)
     self.tag = (self.tag + 1) & 0xff
     if fam is None:
@@ -291,11 +309,15 @@ class World (object):
     if inp in ports: self.fail("back-out-ingress", "%s: emitted on its ingress port" % where)
     if len(set(ports)) != len(ports): self.fail("emitted-twice", "%s: emitted twice on a port %r" % (where, ports))
     etype = frame[12:14]
-    filtered = etype == b"\x88\xcc" or (dst[:5] == bytes.fromhex("0180c20000") and dst[5] <= 0x0f)
+    # link-local bridge-filtered = the destination is in 01:80:c2:00:00:00-0f (where LLDP, STP, ... frames go)
+    filtered = dst[:5] == bytes.fromhex("0180c20000") and dst[5] <= 0x0f
     others = [q for q in range(1, nports + 1) if q != inp]
     if filtered:
       if ports: self.fail("filtered-forwarded", "%s: link-local / LLDP frame forwarded to %r" % (where, ports))
       return
+    # a frame with the LLDP ethertype to any other address: the statement does not say whether it counts as
+    # link-local, so it may be filtered as well as forwarded like any other frame
+    if etype == b"\x88\xcc" and not ports: return
     if dst[0] & 1 or not known_before:
       if sorted(ports) != others:
         kind = "multicast" if dst[0] & 1 else "unknown-unicast"
@@ -365,6 +387,82 @@ def family_root (cname, rname):
   return {"nothing-known": (), "both-known": (("tx", P, "bcast"), ("tx", 1, "bcast")), "flows-hit": (a, b, a, b, a)}[rname]
 
 
+# ---- the frame-content lattice ----------------------------------------------------------------------------------------
+def lattice_script (cname, value):
+  """One history per lattice value: every role a frame can play at a learning bridge, all frames of the history
+  carry the value (for dl-addr:* values: host 1 has that station address)."""
+  P = "h%d" % CONFIGS[cname]["peer"]; p = CONFIGS[cname]["peer"]; f = "lat:" + value
+  return [("tx", 1, P, f),            # destination never seen: flooded
+          ("tx", p, "h1", f),         # destination known: the controller installs a flow and forwards
+          ("tx", 1, P, f),
+          ("tx", 1, P, f),            # cached flows, both directions
+          ("tx", p, "h1", f),
+          ("tx", 4, "h1", f),         # hub segment: the destination lives on the ingress port (drop flow naming the buffer)
+          ("tx", 1, "h4", f),
+          ("tx", 1, "bcast", f), ("tx", 1, "mcast", f), ("tx", 1, "unknown", f),
+          ("tx", 1, "stp", f),        # bridge-filtered destination, whatever the frame carries
+          ("move", 1),
+          ("tx", 1, P, f),            # from the new port: not the cached flow's business
+          ("tx", p, "h1", f),         # (the stale cached flow may still take this one)
+          ("tick", 11),
+          ("tx", p, "h1", f),         # flows gone: to the new port
+          ("tx", 1, P, f),
+          ("tick", 31),
+          ("tx", 1, P, f)]
+
+
+def run_lattice_script (cname, buffers, value):
+  """-> [(step, key, what)], [out per step]"""
+  w = World(cname, buffers)
+  bad = []; outs = []
+  for n, op in enumerate(lattice_script(cname, value)):
+    out = w.apply(op)
+    outs.append(out)
+    for k, what in w.bad: bad.append((n, k, what))
+    if out and out[0] in ("packet-in-loop", "loop"): break        # the closed system is no longer quiescent
+  return bad, outs
+
+
+# Frame classes the UNCHANGED tree delivers with different bytes (the software switch re-serialises every frame from
+# its decoded form; reported to the lead, see DESIGN 9.2b).  Until each has been triaged into a fix or into
+# known_findings.json the byte-identity clause for these classes is evaluated in the thorough tier only, so that the
+# quick tier's exit status stays meaningful (seed confirmation runs the quick tier).  All other clauses apply to these
+# frames in both tiers.  Emptying this tuple moves the clause into the quick tier.
+ALTERED_PENDING_TRIAGE = ()      # (all six classes triaged: listed in known_findings.json)
+
+
+def _lattice_chunk (item):
+  """Worker: a slice of the lattice on one configuration.  A violation that the BASE frame shows at the same step
+  under the same key is not about the frame's content and keeps its plain key; any other gets the value's field as
+  key class (one class per field, never the value)."""
+  cname, buffers, values, quick = item
+  muted = set("%s:frame-altered:%s" % (PID, c) for c in ALTERED_PENDING_TRIAGE) if quick else ()
+  from mc.env import boot
+  boot()
+  rep = Report(PID, "model_checking")
+  base = set((n, k) for n, k, _ in run_lattice_script(cname, buffers, LAT.BASE)[0])
+  for v in values:
+    bad, outs = run_lattice_script(cname, buffers, v)
+    script = lattice_script(cname, v)
+    rep.evaluations += 1
+    rep.transitions += len(outs)
+    rep.state_count += 1
+    rep.outcome((cname, buffers, tuple(outs)))
+    fk = famkey("lat:" + v)
+    for n, k, what in bad:
+      if (n, k) not in base and fk and not k.endswith(fk): k += fk
+      if k in muted: continue
+      rep.violation(k, "[%s] %s" % (v, what), dict(history=[list(o) for o in script[:n + 1]], config=cname, buffers=buffers, root=[], families=None))
+    if v == LAT.BASE: rep.sample(dict(config=cname, buffers=buffers, history=[list(o) for o in script], observed=outs))
+  return rep
+
+
+def lattice_plans (cfg):
+  allv = list(LAT.VALUES); qv = [v for v in allv if v in LAT.QUICK]
+  return [("1swf", 4, allv), ("1swf", 0, allv), ("2swf", 4, cfg.pick(qv, allv)), ("2swf", 0, cfg.pick(qv, allv))] \
+         + ([] if cfg.quick else [("1swf", 1, allv)])
+
+
 def run (cfg):
   from mc.env import boot
   boot()
@@ -373,9 +471,9 @@ def run (cfg):
   plans = [("1sw", 4, depth), ("1sw", 0, depth), ("2sw", 4, depth), ("2sw", 0, depth - 1), ("1swb", 1, depth - 2), ("1swb", 2, depth - 2)]
   if not cfg.quick: plans += [("3sw", 4, depth - 1), ("2sw", 1, depth - 1)]
   only = getattr(cfg, "only", None)          # debugging: --only families | base
-  for cname, buffers, d in (plans if only != "families" else []):
+  for cname, buffers, d in (plans if only in (None, "base") else []):
     bfs(make_expand(cname, buffers), d, rep, workers=cfg.workers, seed=cfg.seed, max_states=cfg.pick(200000, 2000000), chunk=16)
-  for root in (ROOTS if only != "families" else []):
+  for root in (ROOTS if only in (None, "base") else []):
     for cname in ("1sw", "2sw"):
       bfs(make_expand(cname, 4, root), depth - 1, rep, workers=cfg.workers, seed=cfg.seed, max_states=cfg.pick(200000, 2000000), chunk=16)
   rep.extra["roots"] = [[list(o) for o in r] for r in ROOTS]
@@ -386,10 +484,25 @@ def run (cfg):
     fplans += [("1swf", b, "nothing-known", 3 + x), ("1swf", b, "both-known", 4 + x), ("1swf", b, "flows-hit", 2 + x), ("2swf", b, "both-known", 3 + x)]
   if not cfg.quick:
     fplans += [("1swf", 1, "both-known", 4), ("2swf", 4, "nothing-known", 3), ("2swf", 0, "nothing-known", 3), ("2swf", 4, "flows-hit", 2), ("2swf", 0, "flows-hit", 2)]
-  for cname, buffers, rname, d in (fplans if only != "base" else []):
+  for cname, buffers, rname, d in (fplans if only in (None, "families") else []):
     bfs(make_expand(cname, buffers, family_root(cname, rname), FAMILIES_Q), d, rep, workers=cfg.workers, seed=cfg.seed,
         max_states=cfg.pick(200000, 2000000), chunk=16)
   rep.extra["family_plans"] = [list(p) for p in fplans]
+  # the frame-content lattice: one scripted history per value and configuration
+  from mc.engine import pmap
+  lplans = lattice_plans(cfg) if only in (None, "lattice") else []
+  items = [(c, b, vs[i:i + 24], cfg.quick) for c, b, vs in lplans for i in range(0, len(vs), 24)]
+  for r in pmap(_lattice_chunk, items, cfg.workers, seed=cfg.seed): rep.merge(r)
+  rep.extra["lattice_plans"] = [[c, b, len(vs)] for c, b, vs in lplans]
+  # thorough tier: the boundary subset of the lattice also as families of the breadth-first family plans
+  lbfs = []
+  if not cfg.quick and only in (None, "lattice"):
+    lf = ["lat:" + v for v in LAT.VALUES if v in LAT.QUICK]
+    for b in (4, 0):
+      lbfs.append(("1swf", b, "both-known", 2))
+      bfs(make_expand("1swf", b, family_root("1swf", "both-known"), lf), 2, rep, workers=cfg.workers, seed=cfg.seed, max_states=2000000, chunk=16)
+  rep.extra["lattice_bfs_plans"] = [list(p) for p in lbfs]
+  rep.extra["lattice_fields"] = sorted(set(LAT.field(v) for v in LAT.VALUES))
   rep.extra["families"] = list(FAMILIES_Q)
   rep.rule = ("breadth-first search with state matching over all sequences of <=%d host stimuli {frame from each of 3 hosts to each "
               "other host / an unknown unicast address / broadcast / IPv4 multicast / 01:80:c2:00:00:00 / LLDP, host 1 moves to a spare port "
@@ -403,15 +516,34 @@ def run (cfg):
               "for every F in {%s} (udp-N = plain UDP frame of N bytes total: Ethernet minimum, miss_send_len-1/+0/+1, Ethernet maximum), "
               "or a plain frame to each of 01:80:c2:00:00:00..1f and to 5 group addresses one byte away from that block, or an LLDP frame to 01:80:c2:00:00:00/03; "
               "the remaining stimuli stay in that family: {1->P, P->1, 1->broadcast, hub host 4->1, host 1 moves, clock +11 s and sweep}; switch buffering on (4 slots) and off.  "
+              "FRAME-CONTENT LATTICE (%d values in %d fields; plans %s): a base frame (Ethernet II / IPv4 / UDP, 162 bytes) and every frame that differs from it in ONE "
+              "field a bridge or an OpenFlow 1.0 switch could look at - all 256 ICMP types, ICMP codes, all 256 IPv4 protocol numbers (valid IGMP / GRE / TCP / ICMP / IP-in-IP "
+              "messages where the number has a format), all 256 TOS octets, IPv4 source / destination {0, 1, 2^31-1, 2^31, 2^32-1, every single bit, loopback, multicast, link-local}, "
+              "TTL, identification, flag / fragment-offset combinations, IPv4 options, UDP and TCP source / destination port {0, 1, 2^15-1, 2^15, 2^16-1, every single bit, "
+              "53, 67, 68, 520, 4789, 5353 with a valid DNS / DHCP / RIP / VXLAN message, 6633, 6653}, VLAN id {0, 1, 2, 4094, 4095, single bits}, all priorities, CFI, stacked tags, "
+              "what a tag carries (ARP, IPv6, MPLS, EAPOL, the LLDP ethertype, LLC/SNAP, unknown), 32 ethertypes (valid ARP / RARP / IPv6 / MPLS / EAPOL / LLDP payloads), "
+              "802.3 LLC shapes (BPDU to a unicast address, null / global SAP, I-format, SNAP ARP / IPv6 / VLAN, 3 and 1500 bytes), ARP opcodes and addresses, non-IPv4 ARP, "
+              "IPv6 next headers (extension headers, fragments, no-next-header, unknown), ICMPv6 messages, MPLS stacks, EAPOL types, ICMP errors quoting a truncated datagram, "
+              "short frames padded with zeros to the 60-byte Ethernet minimum, and 53 station addresses for host 1 (every single bit but the group bit, zero, fe:ff:ff:ff:ff:ff, near the "
+              "bridge-filtered block); per value and configuration ONE scripted history of 19 stimuli in which frames of that value play every role: unknown destination, known "
+              "destination (flow installed), cached flow hit in both directions, destination on the ingress port (hub host), broadcast, multicast, unknown, 01:80:c2:00:00:00, after "
+              "a host move, after idle and hard timeouts; a violation the base frame shows at the same step keeps its plain key, any other is keyed by the field (never the value)%s.  "
               "Every stimulus has a step cap of 400 control-channel pump rounds (an endless packet-in/flow-mod exchange is a violation, not a hang); "
               "distinct = (last stimulus, per-arrival emissions)"
               % (depth, ", ".join("%s/%d buffers depth %d" % p for p in plans),
-                 ", ".join("%s/%d buffers from %s depth %d" % p for p in fplans), ", ".join(FAMILIES_Q)))
+                 ", ".join("%s/%d buffers from %s depth %d" % p for p in fplans), ", ".join(FAMILIES_Q),
+                 len(LAT.VALUES), len(rep.extra["lattice_fields"]), ", ".join("%s/%d buffers %d values" % (c, b, len(vs)) for c, b, vs in lplans),
+                 "; the %d boundary values also as families of breadth-first family plans (%s)" % (len(LAT.QUICK), ", ".join("%s/%d buffers from %s depth %d" % p for p in lbfs)) if lbfs else ""))
   rep.bound = dict(depth=depth, plans=[list(p) for p in plans], family_plans=[list(p) for p in fplans], families=len(FAMILIES_Q),
+                   lattice_values=len(LAT.VALUES), lattice_plans=rep.extra["lattice_plans"], lattice_script_length=19, lattice_bfs_plans=[list(p) for p in lbfs],
                    control_rounds_per_stimulus=400)
   rep.assumptions = ["the controller reacts synchronously to each packet-in (single-threaded FIFO pump)",
                      "every family frame is a valid frame of its family (lengths and checksums right, no trailer padding), assembled bytewise without POX; "
                      "a history of the family plans uses one family (plus the plain frames of its root)",
+                     "link-local bridge-filtered = destination address in 01:80:c2:00:00:00-0f; a frame with the LLDP ethertype to any other address may be filtered or forwarded (the statement is silent)",
+                     "lattice frames: one field differs from the base frame; where the value selects a protocol with a defined format the payload is a valid message of it; "
+                     "link-layer padding only in the eth-pad values (zeros to 60 bytes)",
+                     "quick tier: the byte-identity clause is not evaluated for the lattice classes %s (altered by the unchanged tree, reported, thorough tier only until triaged)" % (ALTERED_PENDING_TRIAGE,),
                      "a delivered frame must be byte-identical to the frame sent; for the non-plain families that clause is keyed per family (frame-altered:<family>)",
                      "state key = flow tables with ages, the controller's macToPort tables, buffer occupancy, host locations and the bridge model"]
   return rep
